@@ -30,7 +30,13 @@ RULE = ("seeded random histories of 1-15 steps over a pool of 3-6 HasTraits obje
         "Instance reassignment (incl. None, same object, self links), list/dict/set reassignment (incl. equal "
         "content) and in-place item mutation with duplicates (23 container methods), irrelevant changes, reads, "
         "attach/detach, construction with keyword arguments, pickle round trip / clone_traits / deepcopy of the whole "
-        "graph at a random point; scripted cores (item twice / removed once, intermediate object replaced, object under "
+        "graph at a random point; histories ending with a value the observers cannot be "
+        "hooked to (None appended to a list / stored in a dict, an object without the observed traits assigned to "
+        "inst: the statement raises after the store; impl + oracle only, cache and reads compared with a "
+        "recomputation on the live object); a small family where the un-hookable value is not the last one to hook "
+        "(list literal / extend / slice assignment / dict with None first or in the middle; known finding); "
+        "scripted cores (repeated items + same-length slice assignment changing "
+        "the multiplicities + pop + change of everything still reachable, item twice / removed once, intermediate object replaced, object under "
         "two keys, equal container reassigned, object moved) with random padding; every history of length <= 2 "
         "(quick) / <= 3 (thorough) over 11-14 operations for 6 expressions x 3 shapes on a pool of 3; a fixed corpus. Non-trivial = the case produced a read, a getter call or a "
         "notification; distinct = distinct canonical output line")
@@ -245,6 +251,16 @@ def parse_ids(s):
     return [int(x) for x in s.split(",")] if s else []
 
 
+def parse_ids_n(s):
+    """[1,N,2] -> [1, None, 2]"""
+    s = s.strip()[1:-1].strip()
+    return [None if x.strip() == "N" else int(x) for x in s.split(",")] if s else []
+
+
+def show_ids_n(l):
+    return "[" + ",".join("N" if x is None else str(int(x)) for x in l) + "]"
+
+
 def show_ids(l):
     return "[" + ",".join(str(int(x)) for x in l) + "]"
 
@@ -412,6 +428,12 @@ def parse_step(s):
         return (k, int(w[1]), w[2])
     if k in ("rd", "at", "dt"):
         return (k,)
+    if k == "uh":
+        return ("uh", w[1], int(w[2]))
+    if k == "uf":
+        # uf <how> <o> <items>: how = ka (kids = items) | ke (kids.extend(items)) | ks (kids[0:0] = items)
+        #                             | ba (byname = {i: item}) | bu (byname.update({i: item}))
+        return ("uf", w[1], int(w[2]), parse_ids_n(w[3]))
     if k == "cp":
         return ("cp", w[1])
     if k == "K":
@@ -439,6 +461,7 @@ def rebuild(shape_text, n, steps):
     self_reach = False
     nontree = False
     late_reader_first = False
+    unhookable = False
     for st in steps:
         k = st[0]
         pre = None
@@ -488,6 +511,14 @@ def rebuild(shape_text, n, steps):
             out.append("mt %d %s %s %d" % (st[1], st[2], show_ids(sorted(s)), e))
         elif k == "cp":
             out.append("cp %s" % st[1])
+        elif k == "uh":
+            # a value the downstream observers cannot be hooked to (None in a list / dict, an object without the
+            # observed traits in `inst`) is stored and the statement raises: outside the model's vocabulary
+            unhookable = True
+            out.append("uh %s %d" % (st[1], st[2]))
+        elif k == "uf":
+            unhookable = True
+            out.append("uf %s %d %s" % (st[1], st[2], show_ids_n(st[3])))
         elif k == "K":
             pre = h_copy(h)
             h[0] = blank_obj()
@@ -508,7 +539,7 @@ def rebuild(shape_text, n, steps):
     # (the reader attached with `at` is dispatched after the property's observer only when that observer sat on
     #  root.value before; when root.value becomes a dependency later - root reachable from itself - the order on
     #  that trait is registration order, which is C08's hook model, not this one)
-    impl_only = self_reach or (shape.legacy and nontree) or late_reader_first
+    impl_only = self_reach or (shape.legacy and nontree) or late_reader_first or unhookable
     line = "%s|%d|%s" % (shape.text, n, ";".join(out))
     return ("#" if impl_only else "") + line, {"self_reach": self_reach, "nontree": nontree}
 
@@ -574,6 +605,18 @@ def node_class():
     return C12Node
 
 
+def bare_class():
+    """a perfectly good HasTraits object without any of the observed traits"""
+    if "bare" in _CLASSES:
+        return _CLASSES["bare"]
+    from traits.api import HasTraits, Int
+
+    class C12Bare(HasTraits):
+        weight = Int()
+    _CLASSES["bare"] = _register(C12Bare, "C12Bare")
+    return C12Bare
+
+
 def _log(obj):
     d = obj.__dict__
     lg = d.get("_c12")
@@ -583,7 +626,20 @@ def _log(obj):
 
 
 # getter functions over the REAL objects (what the user would write)
+def _uid(x):
+    """pool index of a node; N for a None slot, B for an object that is not a node (no uid / value / ...)"""
+    if x is None:
+        return "N"
+    return x.uid if "uid" in x.trait_names() else "B"
+
+
+def _is_node(o):
+    return o is not None and "uid" in o.trait_names()
+
+
 def r_targets(o, l):
+    if not _is_node(o):
+        return []
     if l == "i":
         return [] if o.inst is None else [o.inst]
     if l == "k":
@@ -593,31 +649,40 @@ def r_targets(o, l):
 
 
 def r_content_str(o, slot):
+    if not _is_node(o):
+        return "~"
     if slot == "v":
         return str(o.value)
     if slot == "a":
         return str(o.aux)
     if slot == "i":
-        return "N" if o.inst is None else "#%d" % o.inst.uid
+        return "N" if o.inst is None else "#%s" % _uid(o.inst)
     if slot == "k":
-        return "[" + ",".join(str(x.uid) for x in o.kids) + "]"
+        return "[" + ",".join(str(_uid(x)) for x in o.kids) + "]"
     if slot == "b":
         d = o.byname
-        return "{" + ",".join("%s:%d" % (k[1:], d[k].uid) for k in sorted(d)) + "}"
+        return "{" + ",".join("%s:%s" % (k[1:], _uid(d[k])) for k in sorted(d)) + "}"
     return "<" + ",".join(str(x) for x in sorted(o.tags)) + ">"
 
 
+def _unum(x):
+    u = _uid(x)
+    return u + 1 if isinstance(u, int) else 50
+
+
 def r_content_sum(o, slot):
+    if not _is_node(o):
+        return 0
     if slot == "v":
         return o.value
     if slot == "a":
         return o.aux
     if slot == "i":
-        return 0 if o.inst is None else o.inst.uid + 1
+        return 0 if o.inst is None else _unum(o.inst)
     if slot == "k":
-        return sum(x.uid + 1 for x in o.kids) + 100 * len(o.kids)
+        return sum(_unum(x) for x in o.kids) + 100 * len(o.kids)
     if slot == "b":
-        return sum(int(k[1:]) * 7 + v.uid + 1 for k, v in o.byname.items())
+        return sum(int(k[1:]) * 7 + _unum(v) for k, v in o.byname.items())
     return sum(o.tags) + 100 * len(o.tags)
 
 
@@ -735,6 +800,7 @@ def root_class(shape):
     name = "C12Root_%d" % uniq
     cls = meta(name, (parent,), body)
     cls._c12_nested_read = nested_read
+    cls._c12_plain = plain
     _CLASSES[key] = _register(cls, name)
     return cls
 
@@ -877,6 +943,7 @@ def run_impl(case):
     interval_exempt = False  # a run in this interval raised / returned Undefined / preceded the invalidation
     self_reach_seen = False
     nontree_seen = False
+    failed_hookup_seen = False
     suffix = None
 
     def klass():
@@ -895,18 +962,115 @@ def run_impl(case):
             return "legacy-depends_on:shared-or-repeated-item"
         # F10: once a link was re-pointed while its owner was reachable through it, hooks are misplaced;
         # all symptoms of a missed change are one signature, all symptoms of a spurious call another
+        # a hook-up that failed half way (un-hookable value among other items) was rolled back with the old hooks
+        # already gone: every later symptom of a missed change is that one defect
+        if failed_hookup_seen and symptom in MISSED:
+            return "stale-after-failed-hookup:" + klass()
         if self_reach_seen and symptom in MISSED:
             return "stale-cache:mutated-link-reachable-through-itself"
         if self_reach_seen and symptom in ("spurious-recompute", "announced-twice"):
             return "spurious-recompute:mutated-link-reachable-through-itself"
         return symptom + ":" + klass()
 
+    degraded = False
     for stext in steps:
         st = parse_step(stext)
         k = st[0]
         tags.add(k if k not in ("mk", "mb", "mt") else k + ":" + st[2].split(":")[0])
         root = R.root
         lg = _log(root)
+        if k in ("uh", "uf") or degraded:
+            # From the first un-hookable value on, the heap is outside the plain-data vocabulary: the oracle
+            # recomputes the getter's function on the live object (plain(): no counter, no cache) instead.
+            # Statement checked: the cache entry / every read is the recomputation; a change that alters it is
+            # announced with the recomputed value.  The exception the statement raises is tolerated (the store
+            # has taken effect: that part is C09/C19's subject).
+            degraded = True
+            plain = R.cls._c12_plain
+            before = show_val(plain(root))
+            pre_raised = lg["raised"]
+            del lg["static"][:]
+            del lg["nested"][:]
+            del R.otc[:]
+            del R.obs[:]
+            read = "-"
+            try:
+                if k == "uh":
+                    o = R.pool[st[2]]
+                    if st[1] == "k":
+                        o.kids.append(None)
+                    elif st[1] == "b":
+                        o.byname["k9"] = None
+                    else:
+                        o.inst = bare_class()(weight=3)
+                elif k == "uf":
+                    o = R.pool[st[2]]
+                    items = [None if x is None else R.pool[x] for x in st[3]]
+                    how = st[1]
+                    if how == "ka":
+                        o.kids = items
+                    elif how == "ke":
+                        o.kids.extend(items)
+                    elif how == "ks":
+                        o.kids[0:0] = items
+                    elif how == "ba":
+                        o.byname = dict(("k%d" % i, x) for i, x in enumerate(items))
+                    else:
+                        o.byname.update(dict(("k%d" % i, x) for i, x in enumerate(items)))
+                elif k == "sv":
+                    setattr(R.pool[st[1]], "value" if st[2] == "v" else "aux", st[3])
+                elif k == "rd":
+                    try:
+                        read = show_val(root.p)
+                    except Exception as e:
+                        read = "!" + S.exc_name(e)
+                elif k == "at":
+                    R.attach()
+                elif k == "dt":
+                    R.detach()
+                else:
+                    return "bad-case step after uh: %s" % stext, [], ["bad-case"]
+            except Exception as e:
+                read = "!!" + S.exc_name(e)
+                tags.add("unhookable-raises:" + S.exc_name(e) if k in ("uh", "uf") else "raises-after-unhookable")
+                if k == "uf":
+                    # the un-hookable value was not the last thing to hook: the failed hook-up is rolled back
+                    failed_hookup_seen = True
+                    tags.add("failed-hookup-rolled-back")
+                if k not in ("uh", "uf"):
+                    hits.append(_hit(sig("mutation-raises"), "`%s` raised %s" % (stext, type(e).__name__), step=stext))
+            after = show_val(plain(root))
+            static, otc, obs, nested = list(lg["static"]), list(R.otc), list(R.obs), list(lg["nested"])
+            outs.append("%s c%d x[%s] s[%s] t[%s] o[%s]" % (
+                read, lg["calls"], "^".join(show_val(v) if t == "ok" else "!" + v for t, v, _, _ in nested),
+                "^".join("%s>%s" % (show_val(a), show_val(b)) for a, b in static),
+                "^".join("%s>%s" % (show_val(a), show_val(b)) for a, b in otc),
+                "^".join("%s>%s" % (show_val(a), show_val(b)) for a, b in obs)))
+            entry = root.__dict__.get(CACHE, None)
+            if CACHE in root.__dict__ and show_val(entry) != after:
+                hits.append(_hit(sig("stale-cache"), "cache entry differs from recomputation after `%s`" % stext,
+                                 cached_value=show_val(entry), recomputed=after, step=stext))
+            if k == "rd" and not read.startswith("!") and read != after:
+                hits.append(_hit(sig("stale-read"), "read differs from recomputation", read=read, recomputed=after,
+                                 step=stext))
+            for t, v, who, now in nested:
+                if t == "ok" and show_val(v) != show_val(now):
+                    hits.append(_hit("ordering:sibling-handler-reads-before-invalidation" if not shape.legacy
+                                     else sig("stale-nested-read"), "a handler read the property during the "
+                                     "dispatch and got a value computed before the change", seen=show_val(v),
+                                     recomputed=show_val(now), step=stext))
+            if before != after and (shape.static or R.attached) and lg["raised"] == pre_raised:
+                for name, got, present in (("static", static, shape.static), ("on_trait_change", otc, R.attached),
+                                           ("observe", obs, R.attached)):
+                    if not present:
+                        continue
+                    if not got:
+                        hits.append(_hit(sig("not-announced"), "0 notifications to the %s listener for a change "
+                                         "that alters the value" % name, step=stext, recomputed=after))
+                    elif show_val(got[-1][1]) != after:
+                        hits.append(_hit(sig("announced-wrong-new"), "notification carries new=%s, recomputed %s"
+                                         % (show_val(got[-1][1]), after), step=stext, listener=name))
+            continue
         pre = snapshot(R.pool)
         pre_calls = lg["calls"]
         pre_raised = lg["raised"]
@@ -1135,7 +1299,69 @@ def reachable(h, paths):
     return sorted(set(out))
 
 
-def random_history(rng, legacy=None, maxsteps=15, allow_self=0.06, tree=None, exprs=None):
+def unhookable_tail(rng, shape, h, n):
+    """Store a value the downstream observers cannot be hooked to (the statement raises after the store), then
+    read and change every object that is still selected."""
+    reach = reachable(h, shape.paths)
+    links = sorted(set(l for ls, _ in shape.paths for l in ls)) or ["i", "k", "b"]
+    o = rng.choice(reach)
+    slot = rng.choice(links) if rng.random() < 0.85 else rng.choice("ikb")
+    tail = [("rd",)] if rng.random() < 0.7 else []
+    tail.append(("uh", slot, o))
+    for _ in range(rng.randint(1, 5)):
+        r = rng.random()
+        if r < 0.5:
+            tail.append(("rd",))
+        elif r < 0.9:
+            tail.append(("sv", rng.choice(reach) if rng.random() < 0.8 else rng.randrange(n), "v", rng.randint(0, 9)))
+        else:
+            tail.append(("at",))
+    tail.append(("rd",))
+    return tail
+
+
+def failed_hookup_history(rng):
+    """The un-hookable value is NOT the last thing to hook: list literal / extend / slice assignment with None
+    first or in the middle, dict with a None value among others - single nested paths through kids / byname
+    (impl + oracle only)."""
+    expr = rng.choice(["k.v", "k.i.v", "b.v", "i.k.v", "i.b.v", "k.k.v"])
+    r = rng.random()
+    getter = "V" if r < 0.7 else "S"
+    shape_text = "%s %d o %d 0 0 0 %s 0 - %s" % (expr, rng.random() < 0.85, rng.random() < 0.4, getter,
+                                                  rng.choice(["-", "-", "bu"]) )
+    shape = Shape(shape_text)
+    if not shape.cached and shape.inherit == "bu":
+        shape_text = shape_text[:-2] + "-"
+        shape = Shape(shape_text)
+    links = shape.paths[0][0]
+    n = 5
+    steps = []
+    owner = 0
+    free = [1, 2, 3, 4]
+    rng.shuffle(free)
+    depth = 0
+    while links[depth] == "i":        # walk down to the container link
+        nxt = free.pop()
+        steps.append(("si", owner, nxt))
+        owner = nxt
+        depth += 1
+    l = links[depth]
+    a, b = free.pop(), free.pop()
+    if rng.random() < 0.5:
+        steps.append(("sk", owner, [a]) if l == "k" else ("sb", owner, {7: a}))
+    if rng.random() < 0.6:
+        steps.append(("at",))
+    steps += [("sv", a, "v", rng.randint(1, 9)), ("rd",)]
+    items = rng.choice([[a, None, b], [None, a], [None, a, b], [a, None, a], [b, None]])
+    how = rng.choice(["ka", "ke", "ks"]) if l == "k" else rng.choice(["ba", "bu"])
+    steps.append(("uf", how, owner, items))
+    for x in rng.sample([a, b, a, b], rng.randint(2, 4)):
+        steps += [("sv", x, "v", rng.randint(10, 19))] + ([("rd",)] if rng.random() < 0.7 else [])
+    steps.append(("rd",))
+    return rebuild(shape_text, n, steps)[0]
+
+
+def random_history(rng, legacy=None, maxsteps=15, allow_self=0.06, tree=None, exprs=None, unhookable=0.06):
     shape_text = random_shape(rng, legacy, exprs)
     shape = Shape(shape_text)
     n = rng.randint(3, 5) if not shape.legacy else rng.randint(4, 6)
@@ -1191,6 +1417,12 @@ def random_history(rng, legacy=None, maxsteps=15, allow_self=0.06, tree=None, ex
             t = pick_target(o)
             if m and rng.random() < 0.3:
                 t = rng.choice(l)       # duplicates
+            if m >= 2 and rng.random() < 0.25:
+                # same length, same set of objects, other multiplicities (or another order)
+                new = [rng.choice(l) for _ in l]
+                if set(new) != set(l):
+                    new[:len(set(l))] = sorted(set(l))
+                return ("mk", o, "slice:0:%d:%s" % (m, show_ids(new)))
             ops = ["append:%d" % t, "append:%d" % t, "insert:%d:%d" % (rng.randint(-1, m + 1), t),
                    "extend:%s" % show_ids(rand_ids(o, 0, 2)), "iadd:%s" % show_ids(rand_ids(o, 0, 2)),
                    "remove:%d" % t, "reverse", "imul:%d" % rng.choice([0, 1, 2, 2]), "clear",
@@ -1311,6 +1543,8 @@ def random_history(rng, legacy=None, maxsteps=15, allow_self=0.06, tree=None, ex
         apply_shadow(st)
     if rng.random() < 0.7:
         steps.append(("rd",))
+    if not shape.legacy and rng.random() < unhookable:
+        steps += unhookable_tail(rng, shape, h, n)
     return rebuild(shape_text, n, steps)[0]
 
 
@@ -1353,8 +1587,22 @@ def motif_history(rng):
         return [assign(t, below[0], [c]), ("sv", c, "v", rng.randint(1, 9))] if rng.random() < 0.6 else \
             [assign(t, below[0], [c])]
     rd = [("rd",)]
-    kind = rng.choice(["dup-remove", "replace", "two-keys", "equal-reassign", "move"])
-    if kind == "dup-remove" and l == "k":
+    kind = rng.choice(["dup-remove", "replace", "two-keys", "equal-reassign", "move", "multiplicity", "multiplicity"])
+    if kind == "multiplicity" and l == "k":
+        # repeated items; a same-length slice assignment keeps the set of objects but changes how often each
+        # occurs (or only the order); one occurrence removed; then every object still in the list changes
+        start = rng.choice([[a, a, b], [a, b, a], [a, b, b], [a, a, b, b], [a, b]])
+        new = [rng.choice([a, b]) for _ in start]
+        if set(new) != {a, b}:
+            new[0], new[-1] = a, b
+        steps += [("sk", owner, start) if rng.random() < 0.5 else ("mk", owner, "extend:%s" % show_ids(start))] + rd
+        steps += [("mk", owner, "slice:0:%d:%s" % (len(start), show_ids(new)))] + rd
+        steps += [("mk", owner, rng.choice(["pop:-1", "pop:0", "del:0", "del:-1", "remove:%d" % a,
+                                             "remove:%d" % b, "dslice:0:1"]))] + rd
+        steps += touch(b) + rd + touch(a) + rd
+        steps += [("mk", owner, rng.choice(["reverse", "pop:-1", "slice:0:1:%s" % show_ids([b])]))] + touch(b) + rd \
+            + touch(a) + rd
+    elif kind == "dup-remove" and l == "k":
         steps += [("mk", owner, "append:%d" % a), ("mk", owner, "append:%d" % a)] + rd + touch(a) + rd
         steps += [("mk", owner, rng.choice(["del:0", "remove:%d" % a, "pop:-1", "pop:0", "dslice:0:1"]))] + rd
         steps += touch(a) + rd + [("mk", owner, rng.choice(["del:0", "clear", "remove:%d" % a]))] + touch(a) + rd
@@ -1388,6 +1636,9 @@ def motif_history(rng):
         elif r < 0.16:
             out.append(("sv", rng.randrange(n), "a", rng.randint(0, 9)))
         out.append(st)
+    if rng.random() < 0.15:
+        h = {o: blank_obj() for o in range(n)}
+        out += unhookable_tail(rng, shape, h, n)[:-1] + [("sv", owner, "v", rng.randint(1, 9)), ("rd",)]
     return rebuild(shape_text, n, out)[0]
 
 
@@ -1454,6 +1705,18 @@ def corpus():
         "i.v 0 o 0 0 0 0 V 0 - bc|3|at;si 0 1;rd;sv 1 v 5;rd",
         "i.v 1 o 0 0 0 0 V 0 - rd|3|si 0 1;rd;sv 1 v 5;rd;mt 0 add:1 [1] 1;rd",
         "v 1 l 0 0 0 0 V 0 - bu|2|rd;sv 0 v 5;rd;sv 0 v 6;rd",
+        # a value the observers cannot hook is stored and the statement raises: invalidated and announced first
+        "k.v 1 o 0 0 0 0 V 0 - -|3|sk 0 [1,2];at;rd;uh k 0;rd;sv 1 v 5;rd",
+        "i.v 1 o 1 0 0 0 V 0 - -|3|si 0 1;sv 1 v 4;rd;uh i 0;rd",
+        "b.v 1 o 0 0 0 0 S 0 - -|3|mb 0 set:0:1 {0:1} 1;at;rd;uh b 0;rd;sv 1 v 2;rd",
+        # the un-hookable value is not the last thing to hook: the failed hook-up is rolled back, later changes
+        # are missed (known finding; impl + oracle only)
+        "k.v 1 o 0 0 0 0 V 0 - -|3|at;rd;uf ka 0 [1,N,2];rd;sv 1 v 10;rd;sv 2 v 20;rd",
+        # repeated items, same-length slice assignment changing the multiplicities, pop, change of what is left
+        "k.v 1 o 0 0 0 0 V 0 - -|3|sk 0 [1,1,2];rd;mk 0 slice:0:3:[1,2,2] [1,2,2] 1;rd;mk 0 pop:-1 [1,2] 1;rd;sv 2 v 5;"
+        "rd;sv 1 v 6;rd",
+        "k.i.v 1 o 1 0 0 0 V 0 - -|5|si 1 3;si 2 4;sk 0 [1,1,2];rd;mk 0 slice:0:3:[1,2,2] [1,2,2] 1;mk 0 pop:-1 [1,2] 1;"
+        "sv 4 v 5;rd;si 2 3;rd",
         # Undefined-returning getter
         "v 1 o 0 0 0 0 S 1 -|2|sv 0 v 3;rd;rd;sv 0 v 4;rd;rd",
     ]
@@ -1467,6 +1730,10 @@ def generate(rng, tier):
         yield random_history(rng)
     for i in range(n // 4):
         yield motif_history(rng)
+    for i in range(n // 10):
+        yield random_history(rng, legacy=False, maxsteps=8, unhookable=1.0)
+    for i in range(n // 40):
+        yield failed_hookup_history(rng)
     # legacy shape on tree-shaped graphs gets its own stream (separate class shape)
     for i in range(n // 8):
         yield random_history(rng, legacy=True, allow_self=0.0)
